@@ -18,6 +18,17 @@ class BindError(Exception):
     pass
 
 
+def _dump_nodoc(node):
+    """ast.dump with docstrings blanked (extraction drops them; dedent alters their whitespace)"""
+    import copy
+    n = copy.deepcopy(node)
+    for x in ast.walk(n):
+        if isinstance(x, (ast.FunctionDef, ast.ClassDef)) and x.body and isinstance(x.body[0], ast.Expr) \
+                and isinstance(x.body[0].value, ast.Constant) and isinstance(x.body[0].value.value, str):
+            x.body[0].value.value = ''
+    return ast.dump(n)
+
+
 class Binder:
     def __init__(self):
         self.cache = {}
@@ -63,7 +74,7 @@ class Binder:
         if node is None:
             raise BindError("cannot locate %s in %s" % (name, path))
         loaded = ast.parse(textwrap.dedent(''.join(lines))).body[0]
-        if ast.dump(loaded) != ast.dump(node):
+        if _dump_nodoc(loaded) != _dump_nodoc(node):
             raise BindError("source of %s on disk differs from the loaded function" % name)
         text = ''.join(lines)
         rec = {'name': pyfn.__module__ + '.' + pyfn.__qualname__, 'file': path,
